@@ -140,7 +140,7 @@ func VerifC12Play() {
 			timeOK = append(timeOK, sched >= lastTime)
 		}
 		lastTime = sched
-		if zz.Symbolic() && zz.Param("checkclock") == 1 {
+		if zz.Param("checkclock") == 1 {
 			clockOK = append(clockOK, snt.clock-start >= sched*1000)
 		}
 	}
